@@ -68,6 +68,10 @@ def run(ctx: Ctx) -> None:
     from refurb.settings import Settings
     rng = ctx.rng
     K = type("ErrorInfo", (Error,), {"prefix": "FURB", "code": 123, "categories": ("readability", "python39")})
+    K0 = K
+    KS = [K, K, type("ErrorInfo", (Error,), {"prefix": "XYZ", "code": 123, "categories": ("readability",)}),
+          type("ErrorInfo", (Error,), {"prefix": "FURB", "code": 124, "categories": ()}),
+          type("ErrorInfo", (Error,), {"prefix": "ABCD", "code": 100, "categories": ("pathlib", "read")})]
     cases = []
     old_cwd = os.getcwd()
     with tempfile.TemporaryDirectory(prefix="c12-") as td:
@@ -108,25 +112,41 @@ def run(ctx: Ctx) -> None:
                     entry = os.path.relpath(entry_abs, cfg_base)
                     if rng.random() < 0.5:
                         entry = decorate(rng, entry)
-                kind = rng.random()
-                if kind < 0.55:
-                    ign = ErrorCode(123, "FURB", Path(entry))
-                elif kind < 0.75:
-                    ign = ErrorCategory("readability", Path(entry))
-                elif kind < 0.9:
-                    ign = ErrorCode(rng.choice([100, 124]), "FURB", Path(entry))
-                else:
-                    ign = ErrorCategory("pathlib", Path(entry))
+                def classifier(path_text):
+                    kind = rng.random()
+                    if kind < 0.45:
+                        return ErrorCode(123, "FURB", Path(path_text))
+                    if kind < 0.6:
+                        return ErrorCategory("readability", Path(path_text))
+                    if kind < 0.85:          # same number under another prefix, same prefix with another number, a plugin's code
+                        return ErrorCode(*rng.choice([(123, "XYZ"), (124, "FURB"), (100, "FURB"), (100, "ABCD"), (123, "ABCD")]), Path(path_text))
+                    return ErrorCategory(rng.choice(["pathlib", "python39", "read", "readability2"]), Path(path_text))
+                ign = classifier(entry)
+                raw = {id(ign): entry}
+                # further entries: for the same path (one amend table listing several codes) or for another directory
+                more = []
+                for _ in range(rng.choice([0, 0, 1, 2])):
+                    text = entry if rng.random() < 0.6 else os.path.relpath(os.path.normpath(root / rng.choice(DIRS)), cfg_base)
+                    m = classifier(text)
+                    raw[id(m)] = text
+                    more.append(m)
+                entries = [ign] + [m for m in more if m != ign]
+                K = rng.choice(KS)
                 fabs = str(root / frel)
                 fname = fabs if rng.random() < 0.3 else os.path.relpath(fabs, cwd)
                 if rng.random() < 0.3:
                     fname = decorate(rng, fname) if not fname.startswith("/") else fname
-                st = Settings(config_file=config_file, ignore={ign, ErrorCode(999, "FURB", None)})
+                st = Settings(config_file=config_file, ignore={*entries, ErrorCode(999, "FURB", None)})
                 if config_file is not None and rng.random() < 0.5:
-                    # the same entry as the user would write it, through the real config parser (what it stores is part of the contract)
+                    # the same entries as the user would write them, through the real config parser (what it stores is part of the contract)
                     from refurb.settings import load_settings
-                    spell = f"FURB{ign.id}" if isinstance(ign, ErrorCode) else f"#{ign.value}"
-                    Path(cfg_abs).write_text(f'[tool.refurb]\nignore = ["FURB999"]\n[[tool.refurb.amend]]\npath = {json.dumps(entry)}\nignore = ["{spell}"]\n')
+                    def spell(c):
+                        return f"{c.prefix}{c.id}" if isinstance(c, ErrorCode) else f"#{c.value}"
+                    by_path: dict[str, list[str]] = {}
+                    for c in entries:
+                        by_path.setdefault(raw[id(c)], []).append(spell(c))
+                    tables = "".join(f'[[tool.refurb.amend]]\npath = {json.dumps(pth)}\nignore = {json.dumps(cs)}\n' for pth, cs in by_path.items())
+                    Path(cfg_abs).write_text(f'[tool.refurb]\nignore = ["FURB999"]\n{tables}')
                     try:
                         st = load_settings(["x.py", "--config-file", config_file])
                         ctx.count("entry-through-config-parser")
@@ -136,22 +156,27 @@ def run(ctx: Ctx) -> None:
                 err = K(line=1, column=0, msg="m", filename=fname)
                 real = bool(rmain.is_ignored_via_amend(err, st))
                 # oracle: at or below, by real path, and the classifier names this error
-                names = (isinstance(ign, ErrorCode) and (ign.prefix, ign.id) == ("FURB", 123)) or \
-                        (isinstance(ign, ErrorCategory) and ign.value in K.categories)
-                ep = os.path.realpath(os.path.join(cfg_base, entry))
                 fp = os.path.realpath(os.path.join(cwd, fname))
-                below = fp == ep or fp.startswith(ep.rstrip("/") + "/")
-                want = names and below
-                ctx.case((str(cwd), config_file, str(ign), fname), nontrivial=True,
+                want = False
+                for c in entries:
+                    names = (isinstance(c, ErrorCode) and (c.prefix, c.id) == (K.prefix, K.code)) or \
+                            (isinstance(c, ErrorCategory) and c.value in K.categories)
+                    ep = os.path.realpath(os.path.join(cfg_base, raw[id(c)]))
+                    below = fp == ep or fp.startswith(ep.rstrip("/") + "/")
+                    want = want or (names and below)
+                ctx.case((str(cwd), config_file, str(entries), K.prefix, K.code, fname), nontrivial=True,
                          sample={"cwd": cwd_rel, "config_file": config_file, "entry": entry, "file": fname, "ignored": real} if rng.random() < 0.004 else None)
                 ctx.count("ignored" if real else "not-ignored")
-                cases.append((str(cwd), config_file, ign, fname, real))
+                ctx.count(f"entries:{len(entries)}")
+                ctx.count("error:" + K.prefix + str(K.code))
+                cases.append((str(cwd), config_file, [(c, raw[id(c)]) for c in entries], fname, real, K))
                 if real != want:
                     ctx.report("amend:" + ("covers-too-much" if real else "covers-too-little"),
                                f"entry {entry!r} (config {config_file!r}, cwd {cwd_rel!r}) vs file {fname!r}: ignored={real}, expected {want}",
                                {"cwd": str(cwd), "config_file": config_file, "entry": entry, "file": fname, "real": real, "expected": want})
             # symlinks: execution only
             os.chdir(root)
+            K = K0
             os.symlink(root / "src" / "util", root / "link_to_util")          # link_to_util/.. is src, not the root
             from refurb.settings import load_settings
             for entry, fname, want in (("link_to_src", "src/a.py", True), ("src", "link_to_src/a.py", True), ("src", "pkg/linked_a.py", True),
@@ -170,16 +195,17 @@ def run(ctx: Ctx) -> None:
             os.chdir(old_cwd)
     if b.ok:
         hdr = ("From Lib Require Import Base Select Paths.\nOpen Scope list_scope.\nSet Printing Width 100000.\n"
-               "Definition chk (c : list string * option string * cls * string * bool) : bool := let '(cwd, cf, ig, f, r) := c in\n"
-               "  Bool.eqb (ignored_via_amend cwd cf [ig; Code \"FURB\" 999 None] f \"FURB\" 123 [\"readability\"; \"python39\"]) r.\n")
+               "Definition chk (c : list string * option string * list cls * string * bool * (string * N * list string)) : bool := let '(cwd, cf, igs, f, r, (pre, id, cats)) := c in\n"
+               "  Bool.eqb (ignored_via_amend cwd cf (igs ++ [Code \"FURB\" 999 None]) f pre id cats) r.\n")
         shards, per = [], 400
         for i in range(0, len(cases), per):
             rows = []
-            for cwd, cf, ign, fname, real in cases[i:i + per]:
+            for cwd, cf, igs, fname, real, KK in cases[i:i + per]:
                 cw = coq.coq_list([S(x) for x in cwd.strip("/").split("/")])
                 from refurb.error import ErrorCode as EC
-                t = ("code", ign.prefix, ign.id, str(ign.path)) if isinstance(ign, EC) else ("cat", ign.value, None, str(ign.path))
-                rows.append(f"({cw}, {'None' if cf is None else '(Some ' + S(cf) + ')'}, {coq_cl(t)}, {S(fname)}, {coq.coq_bool(real)})")
+                ts = [("code", ign.prefix, ign.id, str(ign.path)) if isinstance(ign, EC) else ("cat", ign.value, None, str(ign.path)) for ign, _ in igs]
+                kk = f"({S(KK.prefix)}, {KK.code}%N, {coq.coq_list([S(x) for x in KK.categories])})"
+                rows.append(f"({cw}, {'None' if cf is None else '(Some ' + S(cf) + ')'}, {coq.coq_list([coq_cl(t) for t in ts])}, {S(fname)}, {coq.coq_bool(real)}, {kk})")
             shards.append("Definition cs := [\n" + ";\n".join(rows) + "].\n"
                           "Eval vm_compute in (fix go i l := match l with [] => [] | c :: t => if chk c then go (S i) t else i :: go (S i) t end) 0 cs.\n")
         res = coq.eval_shards(ctx, "amend", hdr, shards, timeout=900)
@@ -194,7 +220,7 @@ def run(ctx: Ctx) -> None:
                 mism.append(f"cwd={c[0]} cf={c[1]} ign={c[2]} file={c[3]} real={c[4]}")
         ctx.obligation("correspondence: Lib/Paths.v ignored_via_amend = refurb.main.is_ignored_via_amend on every symlink-free layout",
                        not mism, "; ".join(mism[:4]))
-    ctx.resolve_broken({}, b.first_error)
+    ctx.resolve_broken({"correspondence: Lib/Paths.v ignored_via_amend = refurb.main.is_ignored_via_amend on every symlink-free layout": ("amend:",)}, b.first_error)
 
 
 def e2e(ctx: Ctx, root: Path) -> None:
